@@ -56,6 +56,7 @@ PROBES = [1, 0.5, -0.5, 0.25, -0.25, 0.3, -0.7, 2, 3, 1.5, 2.5, 0, 0.75]
 def run(ctx):
     repo = ctx.repo
     _sampling_alignment(ctx, repo)
+    _batch_order(ctx, repo)
     shared.module_state_rule(ctx, 'C17.f', ['cirq-ionq/cirq_ionq/', 'cirq-aqt/cirq_aqt/', 'cirq-pasqal/cirq_pasqal/'], floor=2)
     ctx.decided.append('C17.f vendor converters keep no state between calls (module-level containers never written from inside a function)')
     ctx.decided += [
@@ -478,3 +479,31 @@ def _sampling_alignment(ctx, repo):
                 ctx.ob('C17.g', f'{m.name}.{fn.name}:choice(p=)', ok, why, m.rel, c.lineno)
     if n == 0:
         raise AnalysisError('C17.g: no weighted choice() left in the vendor packages')
+
+
+def _batch_order(ctx, repo):
+    """C17.h - results of a batch come back in the order the service lists them (which is the submission order): circuit_index = position."""
+    ctx.decided.append('C17.h IonQ Job.results: the per-circuit histograms are taken from the response in its own order (circuit i of the batch <-> i-th entry); they are not re-sorted by '
+                       'child-job id or anything else')
+    ctx.rule('C17.h', 'batch order: in cirq_ionq.job.Job.results every name that is enumerated to pair histograms with circuit indices derives from the response mapping without a '
+             'sorted / reversed / set / sort call', floor=1, style='TNT')
+    ci = repo.cls('cirq_ionq.job.Job')
+    fn = repo.method(ci.qual, 'results')
+    defs = {}
+    for a in ast.walk(fn):
+        if isinstance(a, ast.Assign) and len(a.targets) == 1 and isinstance(a.targets[0], ast.Name):
+            defs.setdefault(a.targets[0].id, []).append(a.value)
+    REORDER = {'sorted', 'reversed', 'set', 'frozenset', 'sort', 'shuffle'}
+    n = 0
+    seen = set()
+    for c in ast.walk(fn):
+        if isinstance(c, ast.Call) and call_name(c) == 'enumerate' and c.args and isinstance(c.args[0], ast.Name) and c.args[0].id not in seen:
+            nm = c.args[0].id
+            seen.add(nm)
+            n += 1
+            bad = [x for v in defs.get(nm, []) for x in ast.walk(v) if isinstance(x, ast.Call) and (call_name(x) or '').split('.')[-1] in REORDER]
+            ctx.ob('C17.h', f'{ci.qual}.results:{nm}', not bad, '' if not bad else
+                   f'`{nm}` is enumerated to number the circuits of a batch but is built with `{ast.unparse(bad[0])[:60]}`: histogram i is then attributed to some other circuit '
+                   '(measurement keys and qubit mappings of circuit i are applied to it)', ci.mod.rel, bad[0].lineno if bad else fn.lineno)
+    if n == 0:
+        raise AnalysisError('C17.h: Job.results no longer enumerates the histograms')
